@@ -55,6 +55,8 @@ def gen_desc(rng, allow_enc_tag=False, maxbytes=None):
             ln = 0
         elif r < 0.8:
             ln = rng.randrange(1, 6)
+        elif r < 0.86:
+            ln = rng.choice((127, 128, 129, 200))
         else:
             ln = rng.randrange(0, 80)
         if total + 2 + ln > limit:
